@@ -27,6 +27,12 @@ where
         }
     }
 
+    /// Number of keys currently tracked (the value published as `rate_limiter_size`).
+    #[cfg(passage_verif)]
+    pub fn tracked_keys(&self) -> usize {
+        self.buckets.len()
+    }
+
     #[instrument(skip_all)]
     pub fn enqueue(&mut self, key: T) -> bool {
         // get the current time only once
